@@ -130,6 +130,26 @@ func genErr(rng *rand.Rand, depth int) errExpr {
 	}
 	in := genErr(rng, depth-1)
 	tags := append([]string{}, in.tags...)
+	if rng.Intn(7) == 0 {
+		// two wrapped errors in one value: fmt.Errorf with two %w verbs, or errors.Join - `Unwrap() []error`, which
+		// errors.Is / errors.As search branch by branch (and errors.Unwrap does not see at all)
+		other := genErr(rng, depth-1)
+		a, b := in, other
+		if rng.Intn(2) == 0 {
+			a, b = other, in
+		}
+		tags = append(append([]string{}, a.tags...), b.tags...)
+		if rng.Intn(3) == 0 {
+			e := errors.Join(a.err, b.err)
+			return errExpr{e, fmt.Sprintf("wrap2 - %s - %s %s", hx("\n"), a.expr, b.expr), append(tags, "wrap2")}
+		}
+		pre, mid, post := randText(rng)+": ", ": ", ""
+		if strings.Contains(pre, "%") {
+			pre = "w: "
+		}
+		e := fmt.Errorf(pre+"%w"+mid+"%w"+post, a.err, b.err)
+		return errExpr{e, fmt.Sprintf("wrap2 %s %s - %s %s", hx(pre), hx(mid), a.expr, b.expr), append(tags, "wrap2")}
+	}
 	switch rng.Intn(6) {
 	case 0, 1:
 		pre, post := randText(rng)+": ", ""
